@@ -480,10 +480,10 @@ class __Integer(_pre.Pregex):
             - Parameter ``start`` has a value of less than zero.
             - Parameter ``start`` has a greater value than that of parameter ``end``.
         '''
-        if not isinstance(start, int):
+        if not isinstance(start, int) or isinstance(start, bool):
             message = "Provided argument \"start\" must be an integer."
             raise _ex.InvalidArgumentTypeException(message)
-        elif not isinstance(end, int):
+        elif not isinstance(end, int) or isinstance(end, bool):
             message = "Provided argument \"end\" must be an integer."
             raise _ex.InvalidArgumentTypeException(message)
         elif start < 0:
